@@ -20,7 +20,7 @@ from pipefunc._utils import (
     load,
     prod,
 )
-from pipefunc.cache import HybridCache, to_hashable
+from pipefunc.cache import _MISSING, HybridCache, to_hashable
 
 from ._adaptive_scheduler_slurm_executor import (
     maybe_finalize_slurm_executors,
@@ -441,11 +441,11 @@ def _get_or_set_cache(
         return compute_fn()
     cache_key = (func.output_name, to_hashable(kwargs))
 
-    if cache_key in cache:
-        value = cache.get(cache_key)
-        if value is not None or cache_key in cache:
-            return value
-        # Otherwise the entry was evicted (by another process) in between, compute it
+    # A single lookup: with separate `in` and `get` operations the entry can be
+    # evicted (by another process) in between.
+    value = cache.get(cache_key, _MISSING)
+    if value is not _MISSING:
+        return value
     if isinstance(cache, HybridCache):
         t = time.monotonic()
     result = compute_fn()
